@@ -54,6 +54,7 @@ DInit ==
     actors |-> << >>,        \* aid -> [inner, bits, strong, prepQ, notify, hasval, kept, keptR, die]
     owners |-> << >>,        \* oid -> [aid, loc]    loc: top | msg | state | gone
     rets |-> << >>,          \* rid -> [kind, aid, loc]
+    race |-> FALSE,          \* a slab child was added while a dead sibling still awaited its removal (export filter)
     evs |-> << >>,           \* events emitted by the current step
     ops |-> << >> ]          \* script lines produced by the current body
 
@@ -116,8 +117,22 @@ DropClosures(s, cs) ==
   IN DropClosures(s3, Tail(cs))
 
 \* the actor's own value: VTok, then owners kept in state, then kept Rets
+\* the owner kept in a slab slot goes away (slab dropped with the value, or slot removed)
+DropSlabOwner(s, c) ==
+  LET s1 == [s EXCEPT !.actors[c].strong = @ - 1]
+  IN IF s1.actors[c].strong = 0 /\ s.alive
+     THEN [s1 EXCEPT !.deferQ = Append(@, Clo("term", 0, c, FALSE))]
+     ELSE s1
+
 DropValue(s, a) ==
-  LET s1 == Emit(s, [e |-> "vdrop", aid |-> a])
+  LET s0 == Emit(s, [e |-> "vdrop", aid |-> a])
+      kids == SelectSeq(s.actors[a].slab, LAMBDA c : c # 0)
+      \* what the value defers from its Drop handler (after the Stakker is gone: into the void)
+      sv == FoldSeq(LAMBDA c, acc : LET e1 == Emit(acc, [e |-> "sub", q |-> "main", item |-> c.id, hr |-> << >>, via |-> "actor"])
+                                    IN IF acc.alive THEN [e1 EXCEPT !.deferQ = Append(@, c)] ELSE e1,
+                    s0, s.actors[a].vd)
+      s1 == [FoldSeq(LAMBDA c, acc : DropSlabOwner(acc, c), sv, kids) EXCEPT !.actors[a].slab = << >>, !.actors[a].sfree = << >>,
+                                                                              !.actors[a].vd = << >>]
       s2 == FoldSeq(LAMBDA o, acc : DropOwner(acc, o), s1, s.actors[a].kept)
       s3 == FoldSeq(LAMBDA r, acc : DropRet(acc, r), s2, s.actors[a].keptR)
   IN [s3 EXCEPT !.actors[a].kept = << >>, !.actors[a].keptR = << >>, !.actors[a].hasval = FALSE]
@@ -133,8 +148,12 @@ DTerminate(s, a, cause) ==
       s3 == IF act.notify /\ LogAllowed("close")
             THEN Emit(s2, [e |-> "logrec", id |-> act.logid, level |-> "close", parent |-> 0, marker |-> marker])
             ELSE s2
+      \* a slab child's notifier first defers its removal from the parent's slab (an apply on the parent)
+      s4 == IF act.notify /\ act.slabOf # 0 /\ s.alive
+            THEN [s3 EXCEPT !.deferQ = Append(@, [Clo("slabrm", 0, act.slabOf, FALSE) EXCEPT !.child = a])]
+            ELSE s3
   IN IF act.notify
-     THEN Emit([s3 EXCEPT !.actors[a].notify = FALSE],
+     THEN Emit([s4 EXCEPT !.actors[a].notify = FALSE],
                [e |-> "notify", aid |-> a, cause |-> cause, zombie |-> TRUE])
      ELSE s2
 
@@ -164,6 +183,11 @@ Effects(s, cx) ==
   \cup (IF E("after") /\ Budget(s) THEN {[op |-> "after", dd |-> dd] : dd \in {0, 2}} ELSE {})
   \cup (IF E("acreate") /\ Budget(s) /\ s.nextAid <= MaxActors /\ s.nextOid <= MaxOwners
         THEN {[op |-> "acreate"]} ELSE {})
+  \cup (IF E("adefer") /\ Budget(s) THEN {[op |-> "adefer", aid |-> a] : a \in ActorsOf(s)} ELSE {})
+  \cup (IF E("vdefer") /\ cx.k = "meth" /\ Budget(s) THEN {[op |-> "vdefer"]} ELSE {})
+  \cup (IF E("screate") /\ cx.k = "meth" /\ Budget(s) /\ s.nextAid <= MaxActors
+        THEN {[op |-> "screate"]} ELSE {})
+  \cup (IF E("slablen") /\ cx.k = "top" THEN {[op |-> "slablen", aid |-> a] : a \in ActorsOf(s)} ELSE {})
   \cup (IF E("call") /\ Budget(s)
         THEN {[op |-> "call", aid |-> a, prep |-> p, ho |-> ho, hr |-> hr] :
                 a \in ActorsOf(s), p \in {FALSE}, ho \in {{}}, hr \in {{}} \cup {{r} : r \in TopRets(s)}}
@@ -191,6 +215,8 @@ Effects(s, cx) ==
   \cup (IF E("ret") THEN {[op |-> "ret", rid |-> r] : r \in TopRets(s)} ELSE {})
   \cup (IF E("retdrop") THEN {[op |-> "retdrop", rid |-> r] : r \in TopRets(s)} ELSE {})
   \cup (IF E("keepret") /\ cx.k = "meth" THEN {[op |-> "keepret", rid |-> r] : r \in TopRets(s)} ELSE {})
+  \cup (IF E("query") /\ HasStakker(cx) /\ s.nextId <= MaxItems
+        THEN {[op |-> "query", aid |-> a, qb |-> qb] : a \in ActorsOf(s), qb \in {"none", "stop", "fail"}} ELSE {})
   \cup (IF E("zombie") /\ cx.k = "top" THEN {[op |-> "zombie", aid |-> a] : a \in ActorsOf(s)} ELSE {})
 
 SubEv(q, c) ==
@@ -231,7 +257,8 @@ ApplyEff(s, cx, f) ==
              lid == IF Logger THEN s.nextLog ELSE 0
              pid == IF InActor(cx) THEN s.actors[cx.aid].logid ELSE 0
              act == [inner |-> "prep", bits |-> "prep", strong |-> 1, prepQ |-> << >>, notify |-> TRUE,
-                     hasval |-> FALSE, kept |-> << >>, keptR |-> << >>, die |-> "", logid |-> lid]
+                     hasval |-> FALSE, kept |-> << >>, keptR |-> << >>, die |-> "", logid |-> lid,
+                     slabOf |-> 0, slab |-> << >>, sfree |-> << >>, vd |-> << >>]
              s0 == IF LogAllowed("open")
                    THEN Emit(s, [e |-> "logrec", id |-> lid, level |-> "open", parent |-> pid, marker |-> ""])
                    ELSE s
@@ -241,6 +268,42 @@ ApplyEff(s, cx, f) ==
              s2 == Emit(s1, [e |-> "acreate", aid |-> a, oid |-> o, parent |-> IF InActor(cx) THEN cx.aid ELSE 0,
                              slab |-> FALSE, logid |-> lid])
          IN Op(Emit(s2, SubEv("main", c[1])), [op |-> "acreate", aid |-> a, oid |-> o, item |-> c[1].id])
+    [] f.op = "adefer" ->
+         \* Actor::defer: needs only a reference to the actor, in whatever state it is
+         LET c == NewItem(s) IN
+         Op(Emit([s EXCEPT !.deferQ = Append(@, c), !.nextId = @ + 1], [SubEv("main", c) EXCEPT !.q = "main"] @@ [via |-> "actor"]),
+            [op |-> "defer", via |-> "actor", aid |-> f.aid, item |-> c.id])
+    [] f.op = "vdefer" ->
+         \* the actor's value will defer this closure from its own Drop (Actor::defer, no Core access)
+         LET c == NewItem(s) IN
+         Op([s EXCEPT !.actors[cx.aid].vd = Append(@, c), !.nextId = @ + 1], [op |-> "vdefer", item |-> c.id])
+    [] f.op = "screate" ->
+         \* ActorOwnSlab::add (actor.rs): the child's only owner lives in the parent's slab, in the
+         \* slot the slab hands out (most recently vacated first, else a new one at the end)
+         LET a == s.nextAid
+             p == cx.aid
+             c == Clo("call", s.nextId, a, TRUE)
+             lid == IF Logger THEN s.nextLog ELSE 0
+             par == s.actors[p]
+             key == IF par.sfree # << >> THEN Head(par.sfree) ELSE Len(par.slab) + 1
+             act == [inner |-> "prep", bits |-> "prep", strong |-> 1, prepQ |-> << >>, notify |-> TRUE,
+                     hasval |-> FALSE, kept |-> << >>, keptR |-> << >>, die |-> "", logid |-> lid,
+                     slabOf |-> p, slab |-> << >>, sfree |-> << >>, vd |-> << >>]
+             s0 == IF LogAllowed("open")
+                   THEN Emit(s, [e |-> "logrec", id |-> lid, level |-> "open", parent |-> par.logid, marker |-> ""])
+                   ELSE s
+             s1 == [s0 EXCEPT !.nextLog = @ + 1, !.actors = @ @@ (a :> act),
+                             !.nextAid = @ + 1, !.nextId = @ + 1, !.deferQ = Append(@, c)]
+             s2 == [s1 EXCEPT !.race = @ \/ \E i \in 1..Len(par.slab) : par.slab[i] # 0 /\ s.actors[par.slab[i]].bits = "zombie",
+                             !.actors[p].slab = IF key > Len(par.slab) THEN Append(par.slab, a) ELSE [par.slab EXCEPT ![key] = a],
+                             !.actors[p].sfree = IF par.sfree # << >> THEN Tail(par.sfree) ELSE par.sfree]
+             s3 == Emit(s2, [e |-> "acreate", aid |-> a, oid |-> 0, parent |-> p, slab |-> TRUE, logid |-> lid])
+         IN Op(Emit(s3, SubEv("main", c)), [op |-> "acreate", aid |-> a, oid |-> 0, item |-> c.id, slab |-> TRUE])
+    [] f.op = "slablen" ->
+         LET act == s.actors[f.aid]
+             rdy == act.inner = "ready"
+             n == IF rdy THEN Cardinality({i \in 1..Len(act.slab) : act.slab[i] # 0}) ELSE 0
+         IN Op(Emit(s, [e |-> "slablen", aid |-> f.aid, ready |-> rdy, len |-> n]), [op |-> "slablen", aid |-> f.aid])
     [] f.op = "call" ->
          LET c == [Clo("call", s.nextId, f.aid, f.prep) EXCEPT !.ho = f.ho, !.hr = f.hr]
              s1 == [s EXCEPT !.deferQ = Append(@, c), !.nextId = @ + 1,
@@ -293,6 +356,27 @@ ApplyEff(s, cx, f) ==
          Op(Emit([s EXCEPT !.rets[f.rid].loc = "state", !.actors[cx.aid].keptR = Append(@, f.rid)],
                  [e |-> "keepret", rid |-> f.rid, by |-> cx.aid]),
             [op |-> "keepret", rid |-> f.rid])
+    [] f.op = "query" ->
+         \* Actor::query (actor.rs): borrow_ready, run, terminate if cx.die, Some(rv); else None
+         LET a == f.aid
+             id == s.nextId
+             code == "q" \o ToString(id)
+             s0 == Emit([s EXCEPT !.nextId = @ + 1], [e |-> "query", item |-> id, aid |-> a])
+             oprec == [op |-> "query", aid |-> a, item |-> id, qb |-> f.qb, code |-> code]
+         IN IF s.actors[a].inner = "ready"
+            THEN LET s1 == Emit(s0, [e |-> "x", item |-> id, now |-> T(s.now), aid |-> a, prep |-> FALSE])
+                     s2 == IF f.qb = "stop"
+                           THEN Emit([s1 EXCEPT !.actors[a].die = IF @ = "" THEN "stopped" ELSE @], [e |-> "stop", aid |-> a])
+                           ELSE IF f.qb = "fail"
+                           THEN Emit([s1 EXCEPT !.actors[a].die = IF @ = "" THEN "failed:" \o code ELSE @],
+                                     [e |-> "fail", aid |-> a, code |-> code])
+                           ELSE s1
+                     s3 == Emit(Emit(s2, [e |-> "xe", item |-> id]), [e |-> "drop", item |-> id, ran |-> TRUE])
+                     die == s3.actors[a].die
+                     s4 == IF die # "" THEN DTerminate([s3 EXCEPT !.actors[a].die = ""], a, die) ELSE s3
+                 IN Op(Emit(s4, [e |-> "querye", item |-> id, aid |-> a, some |-> TRUE, okval |-> TRUE]), oprec)
+            ELSE Op(Emit(Emit(s0, [e |-> "drop", item |-> id, ran |-> FALSE]),
+                         [e |-> "querye", item |-> id, aid |-> a, some |-> FALSE, okval |-> TRUE]), oprec)
     [] f.op = "zombie" ->
          Op(Emit(s, [e |-> "zombie", aid |-> f.aid, res |-> s.actors[f.aid].bits = "zombie"]),
             [op |-> "zombie", aid |-> f.aid])
@@ -362,6 +446,17 @@ ExecClosure(s, c) ==
          ELSE { [s |-> DropClosures(s, <<c>>), id |-> 0, ops |-> << >>, ret |-> ""] }
     [] c.k = "term" ->
          { [s |-> DTerminate(s, c.aid, "dropped"), id |-> 0, ops |-> << >>, ret |-> ""] }
+    [] c.k = "slabrm" ->
+         \* parent.apply(|this| slab.remove(key)): now if Ready, held if Prep, nothing if Zombie
+         LET par == s.actors[c.aid] IN
+         IF par.inner = "ready" THEN
+            LET key == CHOOSE i \in 1..Len(par.slab) : par.slab[i] = c.child
+                s1 == [s EXCEPT !.actors[c.aid].slab = [par.slab EXCEPT ![key] = 0],
+                                !.actors[c.aid].sfree = <<key>> \o par.sfree]
+            IN { [s |-> DropSlabOwner(s1, c.child), id |-> 0, ops |-> << >>, ret |-> ""] }
+         ELSE IF par.inner = "prep"
+         THEN { [s |-> [s EXCEPT !.actors[c.aid].prepQ = Append(@, c)], id |-> 0, ops |-> << >>, ret |-> ""] }
+         ELSE { [s |-> s, id |-> 0, ops |-> << >>, ret |-> ""] }
     [] c.k = "retcall" ->
          LET act == s.actors[c.aid] IN
          IF act.inner = "ready"
